@@ -47,6 +47,7 @@ def run(ctx):
                 chosen.append(it)
     else:
         chosen = corpus
+    chosen = list(chosen) + list(items.macro_items())
     cases = []
     for i, it in enumerate(chosen):
         # std derives by path: their names live in the prelude
